@@ -142,7 +142,7 @@ PROPS = {
                    {"name": "C05p", "quick": 240, "thorough": 8000, "workers": 8, "config": "[network]\ntimeout_seconds = 1\n"},
                    # whole items over worlds with unreachable and failing secondary fetches (replies, authors): an error item, never a crash
                    {"name": "C07", "quick": 96, "thorough": 2000, "workers": 16},
-                   {"name": "C05x", "quick": 0, "thorough": 400, "workers": 1, "config": "[network]\ntimeout_seconds = 1\n"}],
+                   {"name": "C05x", "quick": 0, "thorough": 600, "workers": 1, "config": "[network]\ntimeout_seconds = 1\n"}],
         "replay_config": "[network]\ntimeout_seconds = 1\n",
         "level": "fault_enumeration",
         "rule": "a document behind 0..3 redirect hops over the TLS simulator, one hop carrying a fault: response cut at a random byte or at a structural boundary (status line, CRLF, blank line, just before the closing brace, last byte) followed by EOF, TCP reset or silence; cuts placed relative to the end of the Location value as served (one character short of it, where a decoy document lives; exactly at its end; after the CR); total silence after the handshake; trickle from the first byte (timeout/10 per byte); headers at once and the rest dripping every timeout/4 (slowtail); "
